@@ -179,7 +179,19 @@ func main() {
 	editFile := flag.String("edit-file", "", "with -edit-old/-edit-new: single-site in-memory edit of this file")
 	editOld := flag.String("edit-old", "", "")
 	editNew := flag.String("edit-new", "", "")
+	dumpKnownFlag := flag.Bool("dump-known", false, "print the function and call-edge list of the tree (input of known_calls.txt)")
+	dumpNorm := flag.String("dump-normalised", "", "write the files changed by the inlining normalisation into this directory and exit")
+	noNorm := flag.Bool("no-normalise", false, "do not retry a failing check on the program normalised by inlining")
 	flag.Parse()
+	if *dumpKnownFlag {
+		P, err := loadSyntaxOnly(*repo, nil)
+		if err != nil {
+			fmt.Fprintln(os.Stderr, err)
+			os.Exit(2)
+		}
+		dumpKnown(P)
+		os.Exit(0)
+	}
 	if *patchFile != "" {
 		b, err := os.ReadFile(*patchFile)
 		if err == nil {
@@ -197,6 +209,24 @@ func main() {
 			fmt.Println("MUTANT-SKIPPED:", err)
 			os.Exit(3)
 		}
+	}
+	if *dumpNorm != "" {
+		ov, log := normalizeByInlining(*repo, runOverlay)
+		for _, l := range log {
+			fmt.Println(l)
+		}
+		for name, b := range ov {
+			if runOverlay != nil {
+				if ob, ok := runOverlay[name]; ok && string(ob) == string(b) {
+					continue
+				}
+			}
+			out := filepath.Join(*dumpNorm, strings.ReplaceAll(strings.TrimPrefix(name, *repo+"/"), "/", "__"))
+			_ = os.MkdirAll(*dumpNorm, 0o755)
+			_ = os.WriteFile(out, b, 0o644)
+			fmt.Println("wrote", out)
+		}
+		os.Exit(0)
 	}
 	if *cpuprof != "" {
 		f, _ := os.Create(*cpuprof)
@@ -241,6 +271,23 @@ func main() {
 	}
 	start := time.Now()
 	res := runProp(*prop, f, *repo, *tier)
+	if !*noNorm && resFailed(res, *prop, *verif) {
+		// the same check on the program with the calls unknown to the rules inlined (inline.go)
+		if ov, log := normalizeByInlining(*repo, runOverlay); ov != nil {
+			saved := runOverlay
+			runOverlay = ov
+			res2 := runProp(*prop, f, *repo, *tier)
+			runOverlay = saved
+			if !resFailed(res2, *prop, *verif) {
+				res2.Extra["decided_on_normalised_program"] = log
+				res2.assume("the source-level inliner of the checker (inline.go) preserves behaviour; the property was decided on the program it produced")
+				fmt.Printf("%s: not decided on the tree as it stands; decided on the program normalised by inlining %d calls unknown to the rules\n", *prop, len(log))
+				res = res2
+			}
+		} else if len(log) > 0 {
+			res.Extra["normalisation"] = log
+		}
+	}
 	if *tier == "thorough" && !*noEvidence && runOverlay == nil && len(res.Fatal) == 0 {
 		runThoroughMutants(res, *prop, *repo, *verif)
 	}
@@ -252,6 +299,29 @@ func main() {
 }
 
 var explainKeys map[string]bool
+
+// resFailed: the run would not exit 0.
+func resFailed(res *Result, prop, verif string) bool {
+	if len(res.Fatal) > 0 || len(res.Obls) == 0 {
+		return true
+	}
+	fnd, _ := loadFindings(filepath.Join(verif, "known_findings.txt"))
+	for _, o := range res.Obls {
+		if o.OK {
+			continue
+		}
+		known := false
+		for _, f := range fnd {
+			if f.prop == prop && f.rule == o.Rule && f.at == o.Func+"#"+strings.SplitN(o.Construct, " ", 2)[0] {
+				known = true
+			}
+		}
+		if !known {
+			return true
+		}
+	}
+	return false
+}
 
 // runOverlay: in-memory file replacements for variant runs (nil for the real tree).
 var runOverlay map[string][]byte
